@@ -17,10 +17,12 @@ LOG="$VERIF_DIR/loom/build.log"
 RUSTFLAGS="--cfg loom --cfg penguin_rs_verif" CARGO_TARGET_DIR="$VERIF_DIR/loom-target" cargo test -p penguin-mux --lib --release --offline --no-run > "$LOG" 2>&1 || { echo "BUILD FAILED (loom)"; tail -30 "$LOG"; exit 2; }
 BIN=$(ls -t "$VERIF_DIR"/loom-target/release/deps/penguin_mux-* 2>/dev/null | grep -v '\.d$' | head -1)
 [ -x "$BIN" ] || { echo "no test binary"; exit 2; }
-"$BIN" --list 2>/dev/null | grep -q verif_loom_writer_vs_task || { echo "HARNESS ERROR: hook module verif_loom is not compiled in"; exit 2; }
+"$BIN" --list 2>/dev/null | grep -q verif_loom_two_writers || { echo "HARNESS ERROR: hook module verif_loom is not compiled in"; exit 2; }
 mkdir -p "$VERIF_DIR/replays" "$VERIF_DIR/evidence"
 run_one() { # scenario bound -> prints output, returns status
-  VERIF_LOOM_SCENARIO="$1" VERIF_LOOM_PREEMPTION_BOUND="$2" LOOM_MAX_BRANCHES=100000 "$BIN" verif_loom_writer_vs_task --exact verif_loom::verif_loom_writer_vs_task --nocapture --test-threads=1 2>&1
+  local T=verif_loom_writer_vs_task
+  case "$1" in *,w2,*) T=verif_loom_two_writers;; esac
+  VERIF_LOOM_SCENARIO="$1" VERIF_LOOM_PREEMPTION_BOUND="$2" LOOM_MAX_BRANCHES=100000 "$BIN" $T --exact verif_loom::$T --nocapture --test-threads=1 2>&1
 }
 if [ -n "$REPLAY" ]; then
   SC=$(python3 -c "import json,sys;print(json.load(open(sys.argv[1]))['plan']['scenario'])" "$REPLAY")
@@ -34,6 +36,8 @@ python3 - "$SEED" > /tmp/.loom_scen.$$ <<'PY'
 import sys, random
 ops = ["a1","a2","c","a1+a1","a1+c","c+a1","a2+c","c+a2","a1+a2","a1+a1+c","a1+c+a1","c+a1+a1"]
 sc = [f"{c},{p},{o}" for c in (0,1,2) for p in (1,2,3) for o in ops]
+# two writers racing for credit on one stream (poll_obtain_write_permission takes &self)
+sc += [f"{c},w2,{o}" for c in (0,1,2,3) for o in ("none","a1","a2","c","a1+c","c+a1","a1+a1")]
 random.Random(int(sys.argv[1])).shuffle(sc)
 print("\n".join(sc))
 PY
@@ -63,7 +67,7 @@ import json,sys
 out,tier,seed,n,ex,viol,wall,samples,pb=sys.argv[1:10]
 json.dump({"property_id":"C12","tier":tier,"seed":int(seed),"level":"exploration",
  "coverage":{"evaluations":int(ex),"distinct_nontrivial":int(ex),
-  "rule":"scenario = (initial credit 0/1/2) x (1-3 writer polls) x (12 scripts of the other thread: acknowledge(1|2) and/or disallow_write in every order); each of the "+n+" scenarios is explored by loom's DFS over every interleaving of the atomic operations and every value the C11 model lets a load return, up to preemption bound "+pb+"; evaluations = interleavings executed, each distinct by construction of the DFS and non-trivial (two threads touching the same atomics)",
+  "rule":"scenario = (initial credit 0/1/2) x (1-3 polls of one writer) x (12 scripts of the other thread: acknowledge(1|2) and/or disallow_write in every order), plus (initial credit 0..3) x (two writer threads polling once each) x (7 scripts of a third thread); each of the "+n+" scenarios is explored by loom's DFS over every interleaving of the atomic operations and every value the C11 model lets a load return, up to preemption bound "+pb+"; evaluations = interleavings executed, each distinct by construction of the DFS and non-trivial (two threads touching the same atomics)",
   "samples":json.loads(samples),"scenarios":int(n),"preemption_bound":int(pb),"exhaustive":True,
   "components_real":["MuxStream::poll_obtain_write_permission","EstablishedStreamData::acknowledge / disallow_write","penguin_mux::loom shim (loom Arc, atomics, AtomicWaker)"],
   "components_stub":["thread scheduler and memory model (loom)","the rest of the connection task (the other thread runs the scripted calls)"],
